@@ -13,19 +13,22 @@ structure MeshInv (b : List Mesh) (c : List Level) : Prop where
 theorem keys_meshLevel (b : List Mesh) (i : Nat) : (meshLevel b i).keys = Spec.C02.meshLevel b i := by
   simp [meshLevel, Level.keys, Spec.C02.meshLevel, Function.comp_def]
 
-/-- the guard under which `[{(): [0]}]` is the right level 0: the empty permutation avoids the basis
-    (false for a mesh pattern with empty underlying pattern - see the report) -/
-def ValidMeshBasis (b : List Mesh) : Prop := ∀ m ∈ b, containsMesh [] m = false
-
-theorem MeshInv.fresh {b : List Mesh} (hb : ValidMeshBasis b) : MeshInv b (freshObj (.mesh b)).cache := by
-  refine ⟨by simp [freshObj], ?_⟩
-  intro i hi
-  have : i = 0 := by simp [freshObj] at hi; omega
-  subst this
+/-- the initial cache of a mesh-basis class (`{(): [0]}` if the empty permutation avoids the basis,
+    `{}` otherwise) is the correct level 0 - for every list of mesh patterns, no hypothesis -/
+theorem MeshInv.fresh (b : List Mesh) : MeshInv b (freshObj (.mesh b)).cache := by
   have h0 : permsLex 0 = [[]] := by decide
-  have : (b.all fun m => !containsMesh [] m) = true := by
-    rw [List.all_eq_true]; intro m hm; simp [hb m hm]
-  simp [freshObj, Level.keys, Spec.C02.meshLevel, h0, this]
+  by_cases hall : (b.all fun m => !containsMesh [] m) = true
+  · refine ⟨by simp [freshObj, hall], ?_⟩
+    intro i hi
+    have : i = 0 := by simp [freshObj, hall] at hi; omega
+    subst this
+    simp [freshObj, Level.keys, Spec.C02.meshLevel, h0, hall]
+  · refine ⟨by simp [freshObj, hall], ?_⟩
+    intro i hi
+    have : i = 0 := by simp [freshObj, hall] at hi; omega
+    subst this
+    have hall' : (b.all fun m => !containsMesh [] m) = false := by simpa using hall
+    simp [freshObj, Level.keys, Spec.C02.meshLevel, h0, hall']
 
 structure MeshExt (b : List Mesh) (c w : List Level) : Prop where
   inv : MeshInv b w
